@@ -611,7 +611,7 @@ func main() {
 	thorough := tier == "thorough"
 	n := 3
 	main := []core.Value{I(1), I(2), S("a"), Arr(I(1))}
-	nested := []core.Value{I(1), Arr(I(2)), Arr(Arr(I(3))), Arr(I(1), Arr(I(2), Arr(I(4))))}
+	nested := []core.Value{I(1), Arr(I(2)), Arr(Arr(I(3))), Arr(I(1), Arr(I(2), Arr(I(4)))), Arr(), Arr(Arr(), Arr(Arr(I(5))))}
 	nums := []core.Value{I(-2), F(-1.5), F(0.5), I(3)}
 	objK := []string{"a", "b", "c"}
 	objV := []core.Value{I(1), Obj("a", I(1)), Obj(), values.None}
